@@ -296,3 +296,55 @@ func templateDataRule(o *Ob) {
 		o.Check(strings.Contains(v1, "len(p1)") && strings.Contains(v1, "-"), "trunc-count", "the number of truncated alerts must be len(alerts) − max_alerts, is "+v1, ret)
 	}
 }
+
+// integrationPassThroughRule: Integration.Notify is the wrapper between the retry stage and the integration's
+// notifier.  The retry decision is the integration's own: the wrapper hands the batch to the notifier unchanged
+// and returns the notifier's (recoverable, error) unchanged; its deferred bookkeeping does not write them.
+func integrationPassThroughRule(o *Ob) {
+	e := o.E
+	fn := o.Fn("(*am/notify.Integration).Notify")
+	c := o.One(e.Calls(fn, "invoke:am/notify.Notifier.Notify"), "delegate", "the integration wrapper must call its notifier exactly once", fn)
+	o.Site(c, "Integration.Notify → notifier.Notify")
+	o.Check(e.Arg(c, 0) == "recv.notifier" && e.Arg(c, 2) == "p1", "delegate-args", "the notifier must get the batch unchanged", c)
+	cx := e.X(fn, c.(*ssa.Call))
+	r := (&Walk{Fn: fn}).FromEntry()
+	n := 0
+	for _, ret := range r.Returns() {
+		for idx := 0; idx < 2; idx++ {
+			vs := e.ValStrs(fn, e.RetVals(r, ret, idx))
+			n++
+			want := cx + "#" + itoa(idx)
+			ok := len(vs) >= 1
+			for _, v := range vs {
+				if v != want && v != "phi(cyc|"+want+")" {
+					ok = false
+				}
+			}
+			o.Check(ok, "verdict|"+itoa(idx), "the wrapper must return the notifier's result #"+itoa(idx)+" unchanged (the retry decision belongs to the integration), may return "+clip(strings.Join(vs, " | ")), ret)
+		}
+	}
+	o.Check(n >= 2, "verdict-exits", "Integration.Notify has no normal exit", nil)
+	// the deferred bookkeeping only reads the results
+	for _, in := range AllInstrs(fn) {
+		d, ok := in.(*ssa.Defer)
+		if !ok {
+			continue
+		}
+		if lit := e.FuncValue(d.Call.Value); lit != nil {
+			for _, in2 := range AllInstrs(lit) {
+				if s, ok := in2.(*ssa.Store); ok {
+					if fv, ok := s.Addr.(*ssa.FreeVar); ok {
+						o.Check(fv.Name() != "recoverable" && fv.Name() != "err", "verdict-deferred", "the deferred bookkeeping rewrites the result "+fv.Name(), s)
+					}
+				}
+			}
+		}
+	}
+}
+
+func init() {
+	reg("C20", "C20.9", "T6", "the retry decision is the integration's: Integration.Notify hands the batch to its notifier and returns the notifier's (recoverable, error) unchanged", func(o *Ob) {
+		integrationPassThroughRule(o)
+		o.MinSites(1)
+	})
+}
